@@ -64,8 +64,23 @@ def main():
                 if not any(c.tag in ("failure", "error", "skipped") for c in tc):
                     passed.add("%s::%s" % (tc.get("classname"), tc.get("name")))
             sp = set(json.load(open("/root/.vp/BASELINE.json"))["stable_pass"])
-            res["suite_missing_stable"] = sorted(sp - passed)
+            missing = sorted(sp - passed)
             res["suite_passed"] = len(passed)
+            # the suite contains unseeded stochastic tests that fail now and then (more often on a loaded machine):
+            # a stable test that is missing is re-run alone up to 3 times before the change is declared test-breaking
+            flaky = []
+            for t in list(missing):
+                cls, name = t.split("::")
+                parts = cls.split(".")
+                node = "/".join(parts[:-1]) + ".py::" + parts[-1] + "::" + name
+                for _ in range(3):
+                    rr = sh(["/venv/bin/python", "-m", "pytest", "-q", "-p", "no:cacheprovider", "--timeout=900", node], cwd=wt, env=env, timeout=1800)
+                    if rr.returncode == 0:
+                        missing.remove(t)
+                        flaky.append(t)
+                        break
+            res["suite_missing_stable"] = missing
+            res["suite_flaky_rerun_passed"] = flaky
         ev = os.path.join(d, "ev")
         env2 = dict(os.environ, ARTAP_TREE=wt, VERIF_EVIDENCE_DIR=ev, VERIF_REPLAY_DIR=os.path.join(d, "rp"))
         env2.setdefault("VERIF_SEED", "0")
